@@ -367,69 +367,105 @@ PURE_SET_METHODS = ("is_empty", "get_languages", "get_captions", "get_styles", "
 
 
 def input_copied(cls, method, param, g, pure_methods_of=None):
-    """the writer's input parameter is deep-copied before anything impure can touch it"""
+    """the writer's input parameter is deep-copied before anything impure can touch it.
+
+    Every occurrence of the parameter in the method (up to the point where the parameter itself is rebound to a
+    copy) must be one of:  the argument of `deepcopy(...)`;  the first argument of a *copying helper* - a method of
+    the class or a function of its module in which every occurrence of the corresponding parameter is again of
+    one of these kinds (checked recursively);  the receiver of a `CaptionSet` method proved pure.  Which name the
+    copy is bound to, and whether the copying is done in place or in a helper, does not matter."""
     label = f"{cls.__name__}.{method}({param})"
     meths = methods_of(cls)
-    fn = meths[method][0]
+    fn, owner = meths[method]
     from pycaption.base import CaptionSet
     cs_methods = methods_of(CaptionSet)
-    copied = False               # the parameter itself was rebound to a copy: the original is out of reach
-    copy_taken = False           # a copy was bound to another name: the original stays reachable through the parameter
+    mod_tree = module_ast_of(sys.modules[owner.__module__])
+    mod_funcs = {st.name: st for st in mod_tree.body if isinstance(st, ast.FunctionDef)}
     problems = []
+    saw_copy = [False]
 
-    def copy_of_param(value):
-        """`deepcopy(param)` or `self.helper(param, ...)` where the helper deep-copies its first parameter first"""
-        if not isinstance(value, ast.Call):
-            return False
-        f = value.func
-        if isinstance(f, ast.Name) and f.id == "deepcopy" and len(value.args) == 1 \
-                and isinstance(value.args[0], ast.Name) and value.args[0].id == param:
-            return True
-        if isinstance(f, ast.Attribute) and isinstance(f.value, ast.Name) and f.value.id == self_name(fn) \
-                and f.attr in meths and value.args and isinstance(value.args[0], ast.Name) \
-                and value.args[0].id == param:
-            h = meths[f.attr][0]
-            hp = [a.arg for a in h.args.args if a.arg not in ("self", "cls")]
-            return bool(hp and _first_statement_copies(h, hp[0]))
-        return False
-    for st in fn.body:
-        if copied:
-            break
-        if isinstance(st, ast.Assign) and len(st.targets) == 1 and isinstance(st.targets[0], ast.Name) and copy_of_param(st.value):
-            # the parameter occurs only as the argument of the copying call (other arguments must not mention it)
-            others = [n for a in st.value.args[1:] + [k.value for k in st.value.keywords] for n in ast.walk(a)
-                      if isinstance(n, ast.Name) and n.id == param]
-            if not others:
-                if st.targets[0].id == param:
-                    copied = True                 # X = deepcopy(X)
-                else:
-                    copy_taken = True             # Y = deepcopy(X): X itself must stay untouched from here on
-                continue
-        # uses of the parameter before the copy: only pure method calls on it
-        for n in ast.walk(st):
-            if isinstance(n, ast.Name) and n.id == param:
-                par = _parent_call(st, n)
-                if par is None:
-                    problems.append(f"line {n.lineno}: {param} used before being copied")
+    def parent_map(root):
+        pm = {}
+        for n in ast.walk(root):
+            for ch in ast.iter_child_nodes(n):
+                pm[ch] = n
+        return pm
+
+    def resolve(call, enclosing_fn):
+        """the FunctionDef a call refers to (method of the class / function of the module) and the name of the
+        parameter that receives the first positional argument; None if unknown"""
+        f = call.func
+        target = None
+        if isinstance(f, ast.Name) and f.id in mod_funcs:
+            target = mod_funcs[f.id]
+            params = [a.arg for a in target.args.args]
+        elif isinstance(f, ast.Attribute) and isinstance(f.value, ast.Name) and f.attr in meths and \
+                f.value.id in (self_name(enclosing_fn), "self", "cls", cls.__name__, owner.__name__):
+            target = meths[f.attr][0]
+            static = any((isinstance(d, ast.Name) and d.id == "staticmethod") for d in target.decorator_list)
+            params = [a.arg for a in target.args.args][0 if static else 1:]
+        if target is None or not params:
+            return None
+        return target, params[0]
+
+    def classify(func_node, pname, depth=0):
+        """problems with the occurrences of pname in func_node; True in saw_copy when a copy is taken"""
+        out = []
+        pm = parent_map(func_node)
+        rebound_at = None
+        for st in func_node.body:
+            if rebound_at is not None:
+                break
+            for n in ast.walk(st):
+                if not (isinstance(n, ast.Name) and n.id == pname):
                     continue
-                mname = par
-                if mname not in PURE_SET_METHODS or mname not in cs_methods:
-                    problems.append(f"line {n.lineno}: {param}.{mname}() before the copy is not a known pure method")
+                if isinstance(n.ctx, ast.Store):
                     continue
-                ok, why = is_pure_function(cs_methods[mname][0])
-                if not ok:
-                    problems.append(f"CaptionSet.{mname} is not pure: {why}")
-    if not copied and copy_taken:
-        # the copy went to another name and the parameter was only read through pure methods afterwards
-        g.check(f"{label}: input deep-copied before any impure use", not problems, {"problems": problems})
-        return
-    if not copied:
-        # no copy at all: then everything reachable from the parameter must be used purely
+                par = pm.get(n)
+                # deepcopy(p)
+                if isinstance(par, ast.Call) and isinstance(par.func, ast.Name) and par.func.id == "deepcopy" \
+                        and par.args and par.args[0] is n:
+                    saw_copy[0] = True
+                    continue
+                # helper(p, ...) with p as first positional argument
+                if isinstance(par, ast.Call) and par.args and par.args[0] is n and depth < 4:
+                    r = resolve(par, func_node)
+                    if r is not None:
+                        sub = classify(r[0], r[1], depth + 1)
+                        if not sub:
+                            continue
+                        out.append(f"line {n.lineno}: {pname} passed to {r[0].name}, which may touch it: {sub[0]}")
+                        continue
+                # p.pure_method(...)
+                if isinstance(par, ast.Attribute) and par.value is n and isinstance(pm.get(par), ast.Call) and pm[par].func is par:
+                    mname = par.attr
+                    if mname in PURE_SET_METHODS and mname in cs_methods:
+                        ok, why = is_pure_function(cs_methods[mname][0])
+                        if ok:
+                            continue
+                        out.append(f"CaptionSet.{mname} is not pure: {why}")
+                        continue
+                    out.append(f"line {n.lineno}: {pname}.{mname}() on the original is not a known pure method")
+                    continue
+                out.append(f"line {n.lineno}: {pname} used other than to copy it")
+            # p = <copy of p>: from here on the name denotes the copy
+            if isinstance(st, ast.Assign) and len(st.targets) == 1 and isinstance(st.targets[0], ast.Name) \
+                    and st.targets[0].id == pname and not out:
+                rebound_at = st
+        return out
+    problems = classify(fn, param)
+    if not saw_copy[0] and not problems:
+        # no copy anywhere: then the parameter is only read through pure methods - or nothing is known
         ok, why = _whole_method_pure(cls, method)
         g.check(f"{label}: input deep-copied before any impure use", ok,
-                {"no_deepcopy_rebinding": True, "and_the_method_is_not_pure": why})
+                {"no_deepcopy": True, "and_the_method_is_not_pure": why})
         return
-    g.check(f"{label}: input deep-copied before any impure use", not problems, {"problems": problems})
+    if not saw_copy[0]:
+        ok, why = _whole_method_pure(cls, method)
+        g.check(f"{label}: input deep-copied before any impure use", ok,
+                {"no_deepcopy": True, "and_the_method_is_not_pure": why, "problems": problems[:6]})
+        return
+    g.check(f"{label}: input deep-copied before any impure use", not problems, {"problems": problems[:6]})
 
 
 def _first_statement_copies(fn, param):
@@ -537,12 +573,42 @@ def no_hash_order(tree, g, label):
             continue
         if isinstance(par, (ast.If, ast.While, ast.BoolOp, ast.UnaryOp)):
             continue
+        if isinstance(par, ast.For) and par.iter is n and _at_most_one_element(par, key, parents):
+            continue            # `if len(S) > 1: raise ...` right before: nothing to order
+        if isinstance(par, ast.Call) and isinstance(par.func, ast.Name) and n in par.args and \
+                par.func.id in ("any", "all", "sum", "min", "max", "frozenset", "set"):
+            continue            # order-insensitive aggregates / another set
         if isinstance(par, ast.Attribute) and par.value is n:
             problems.append(f"line {n.lineno}: set {key!r} used through .{par.attr}")
             continue
         problems.append(f"line {n.lineno}: set {key!r} escapes ({type(par).__name__}): its iteration order would "
                         "depend on the hash seed")
     g.check(f"{label}: no iteration order taken from a set", not problems, {"problems": problems[:6]})
+
+
+def _at_most_one_element(for_node, key, parents):
+    """the loop `for x in S` is preceded, in the same block, by `if len(S) > 1: raise / return` (S not reassigned
+    in between): S has at most one element, so there is no iteration order"""
+    block_owner = parents.get(for_node)
+    for field in ("body", "orelse", "finalbody"):
+        block = getattr(block_owner, field, None)
+        if isinstance(block, list) and for_node in block:
+            before = block[:block.index(for_node)]
+            for st in reversed(before):
+                if any(isinstance(x, (ast.Assign, ast.AugAssign)) and any(
+                        (isinstance(t, ast.Name) and t.id == key) or (isinstance(t, ast.Attribute) and t.attr == key)
+                        for t in (x.targets if isinstance(x, ast.Assign) else [x.target])) for x in ast.walk(st)):
+                    return False
+                if isinstance(st, ast.If) and isinstance(st.test, ast.Compare) and len(st.test.ops) == 1 \
+                        and isinstance(st.test.left, ast.Call) and isinstance(st.test.left.func, ast.Name) \
+                        and st.test.left.func.id == "len" and st.test.left.args \
+                        and (getattr(st.test.left.args[0], "id", None) == key or getattr(st.test.left.args[0], "attr", None) == key) \
+                        and isinstance(st.test.comparators[0], ast.Constant) \
+                        and ((isinstance(st.test.ops[0], ast.Gt) and st.test.comparators[0].value == 1)
+                             or (isinstance(st.test.ops[0], ast.GtE) and st.test.comparators[0].value == 2)) \
+                        and st.body and isinstance(st.body[-1], (ast.Raise, ast.Return)):
+                    return True
+    return False
 
 
 STATEFUL_DECORATORS = {"lru_cache", "cache", "cached_property", "memoize", "memoized"}
